@@ -117,6 +117,8 @@ def spec_strategy(draw, backend, idx):
         md["result_name"] = res
     if ret_coll:
         md["return_is_collection"] = True
+    elif draw(st.integers(0, 2)) == 0:
+        md["return_is_collection"] = False  # (the flag spelt out: it is its value that counts, not its presence)
     if mobj:
         md["method_object"] = mobj
         md["instance_object"] = "xAOD::Jet_v1"
